@@ -2,17 +2,24 @@
 """writes /verif/seeded/README.md from seeded/*/meta.json"""
 import json, glob, os
 rows=[]
+def note(v):
+    h=v.get('check_history') or []
+    if len(h)>1:
+        first=h[0]
+        return ('first run %s; strengthened: %s' % (first.get('result'), h[-1].get('note',''))).replace('|','/')
+    return v.get('note','') or ''
 for d in sorted(glob.glob('/verif/seeded/*/')):
     m=os.path.join(d,'meta.json')
     if not os.path.exists(m): continue
     j=json.load(open(m)); v=j.get('verified_by_us',{})
     rows.append((os.path.basename(d.rstrip('/')), j.get('summary','')[:160].replace('\n',' ').replace('|','/'), j.get('needs','')[:160].replace('\n',' ').replace('|','/') if isinstance(j.get('needs'),str) else str(j.get('needs'))[:160],
-                 v.get('demo_exit_with_change'), v.get('demo_exit_without_change'), v.get('existing_package_tests_exit_with_change'), v.get('our_check'), v.get('our_check_tier'), v.get('our_check_result'), v.get('note','')))
+                 v.get('demo_exit_with_change'), v.get('demo_exit_without_change'), v.get('existing_package_tests_exit_with_change'), v.get('our_check'), v.get('our_check_tier'), v.get('our_check_result'), note(v)))
 out=["# Independently written property-breaking changes\n",
 "Each directory holds a change to lavanet/lava written by a fresh sub-agent that was given only the text of one property and a scratch",
 "git worktree (nothing from /verif): `patch.diff`, the demonstration test, `demo_cmd.txt`, `meta.json` (the author's description plus",
 "`verified_by_us`: demo exit code with / without the change, exit code of the changed packages' own tests with the change, and the result of",
-"running our check against the change through `scripts/mutate_overlay.sh`). None of these changes is committed to /repo.\n",
+"running our check against the change through `scripts/mutate_overlay.sh`). None of these changes is committed to /repo.",
+"Where the first run of our check MISSED a change, the check was strengthened (never the change weakened) and re-run; the note column says how.\n",
 "| id | change | needs | demo with/without | pkg tests | our check | tier | result | note |","|---|---|---|---|---|---|---|---|---|"]
 for r in rows:
     out.append(f"| {r[0]} | {r[1]} | {r[2]} | {r[3]}/{r[4]} | {r[5]} | {r[6]} | {r[7]} | **{r[8]}** | {r[9]} |")
